@@ -10,7 +10,7 @@ from harness import vlib
 from harness import c15lib as L
 
 THEOREMS = [
-    "C15_agree_partial", "C15_agree_o_partial", "C15_exact_serializes", "C15_frame_o_partial",
+    "C15_agree_partial", "C15_agree_o_partial", "C15_pack_order_perm", "C15_exact_serializes", "C15_frame_o_partial",
     "C15_compositional_list", "C15_compositional_dict", "C15_compositional_tuple",
     "C15_compositional_optional", "C15_compositional_field", "C15_compositional_wrapper",
     "C15_unpack_compositional_list", "C15_unpack_compositional_dict", "C15_unpack_compositional_tuple",
@@ -21,7 +21,7 @@ THEOREMS = [
 ]
 
 FORMAT_THEOREMS = [
-    "C15_format_agree_partial", "C15_format_agree_plain_partial", "C15_format_codec_list", "C15_format_codec_dict",
+    "C15_format_agree_partial", "C15_format_agree_builtin_partial", "C15_format_agree_plain_partial", "C15_format_codec_list", "C15_format_codec_dict",
     "C15_format_decode_agree", "C15_format_decode_agree_data", "C15_format_priority_refuted",
 ]
 
@@ -998,8 +998,13 @@ def run(ctx: vlib.Ctx):
         "YAML/TOML, TOML date literals as ISO text); Dialect.merge's OPTION part is the translated kernel K2 (+K13), its STRATEGY part "
         "(pass_through for bytes/date/..., user strategies) and the options namedtuple_as_dict/omit_default/no_copy_collections are "
         "outside the model - format tie restricted to union-free types, strategies covered by the format oracle only",
-        "lazy compilation, module identity, PEP 563 and the Config options other than serialize_by_alias / omit_none are outside the "
-        "Coq model (invisible there): covered by the correspondence (as invariance) and the oracles",
+        "in the Coq model since round 4: Config.sort_keys / forbid_extra_keys / allow_deserialization_not_by_alias / omit_default, "
+        "literal field defaults (int/str/None), the merged dialect option omit_default; the format tie decides in Coq, from the "
+        "tables the kernel K13C reads off mashumaro/mixins/*.py, where a built-in dialect (date strategy, no_copy_collections) makes a "
+        "union-reaching type fall outside the model (counted in format_tie)",
+        "lazy compilation, module identity and PEP 563 are outside the Coq model (invisible there): covered by the correspondence "
+        "(as invariance) and the oracles; strategies, no_copy_collections, namedtuple_as_dict, non-literal defaults / "
+        "default_factory, non-str mapping keys remain oracle-only",
         "typing interns parametrised generics by equal arguments (List[Union[A,B]] is List[Union[B,A]]): modules in which the "
         "type objects do not have the generated member order are dropped (stated predicate module_matches_scenario)",
     ]
@@ -1187,7 +1192,7 @@ def run(ctx: vlib.Ctx):
         L.unload_module(mod)
 
     # ---------------- (M) correspondence of the format part of the model (C15Format.v over the K2/K13 kernels)
-    ctx.theorems("props/C15_formats.vo", FORMAT_THEOREMS, kernels=["K2", "K13"])
+    ctx.theorems("props/C15_formats.vo", FORMAT_THEOREMS, kernels=["K2", "K13", "K13C"])
     ctx.coqchk(["VerifProps.C15_entrypoints", "VerifProps.C15_formats"])
     from harness import c15fmt_tie
     tied_for_formats = [(sc, vals) for (sc, vals, src, mod) in loaded if not sc.wide and "~" not in str(sc.sid) and not str(sc.sid).startswith("fx")]
@@ -1427,6 +1432,8 @@ def scenario_from_module(mod, rep):
     sc.dialect = rep.get("dialect")
     dlo = getattr(mod.__dict__.get("Dl"), "omit_none", None)
     sc.dialect_omit = dlo if isinstance(dlo, bool) else None
+    dld = getattr(mod.__dict__.get("Dl"), "omit_default", None)
+    sc.dialect_omit_default = dld if isinstance(dld, bool) else None
     names = sorted([n for n in mod.__dict__ if n.startswith("K") and n[1:].isdigit()], key=lambda s: int(s[1:]))
 
     def ty_of(tp):
@@ -1468,6 +1475,12 @@ def scenario_from_module(mod, rep):
         on = getattr(cfg, "omit_none", None) if cfg else None
         if isinstance(on, bool):
             cobj.extra["omit_none"] = str(on)
+        for oname in ("sort_keys", "forbid_extra_keys", "allow_deserialization_not_by_alias", "omit_default"):
+            if cfg is not None and isinstance(cfg.__dict__.get(oname), bool):
+                cobj.extra[oname] = str(cfg.__dict__[oname])
+        for f in dc.fields(k):
+            if f.name not in inherited and f.default is not dc.MISSING and (f.default is None or type(f.default) in (int, str)):
+                cobj.defaults[f.name] = L.canon(f.default)
         sc.classes.append(cobj)
     sc.roots = [ty_of(t) for t in mod.ROOTS]
     return sc
